@@ -17,7 +17,8 @@ Definition CL_ASYNC : Z := 4.      (* an application handler did not run on a go
 Definition CL_MISSING : Z := 5.    (* everything has come to rest and a subscribed handler never got an event, or a
                                       Publish never returned *)
 Definition CL_DEADLOCK : Z := 6.   (* unfinished calls and no thread can run / a step never completed *)
-Definition CL_SHAPE : Z := 7.      (* observation impossible for the operation (event id reused, wrong caller) *)
+Definition CL_SHAPE : Z := 7.      (* observation impossible for the operation (event id reused, wrong caller; a call of
+                                      a burst of overlapping calls did not return / returned twice) *)
 
 Record mst := {
   m_set : list item;                 (* who is subscribed now (set) *)
@@ -105,8 +106,31 @@ Fixpoint mon_list (m : mst) (out : list obs) : mst * verdict :=
       (m2, v1 ++ v2)
   end.
 
+(* a burst of overlapping (un)subscriptions: every call returns, once, reported in the order
+   given (the order in which they really finished is not observed).  What the burst does to
+   the subscriptions is judged like any other (un)subscription: the monitor's view is a set,
+   and from then on every publication must reach each member exactly once - so a pair that
+   two overlapping subscriptions both entered is caught by CL_TWICE at the next publication,
+   and one that was lost by CL_MISSING. *)
+Fixpoint par_shape (acts : list act) (out : list obs) : bool :=
+  match acts with
+  | [] => match out with [] => true | _ => false end
+  | APub :: r => par_shape r out
+  | ASub l h :: r =>
+      match out with
+      | OSub _ l' h' :: o => item_eqb (l, h) (l', h') && par_shape r o
+      | _ => false
+      end
+  | AUnsub l h :: r =>
+      match out with
+      | OUnsub _ l' h' :: o => item_eqb (l, h) (l', h') && par_shape r o
+      | _ => false
+      end
+  end.
+
 Definition shape_ok (o : op) (out : list obs) : bool :=
   match o, out with
+  | Par acts, _ => par_shape acts out
   | Script _ _ _, [] => true
   | Script _ _ _, _ => false
   | Call _ _, [] => true
